@@ -78,7 +78,9 @@ def write_xlsx(book: dict) -> bytes:
         n = nsheets - logical + 1
         rid = f"rId{logical}"
         wrels.append((rid, f"{REL}/worksheet", f"worksheets/sheet{n}.xml", False))
-        sheets_xml += f'<sheet name="{escape(sh["name"], {chr(34): "&quot;"})}" sheetId="{logical}" r:id="{rid}"/>'
+        # every second sheet (never the first) is hidden: a hidden sheet is still a sheet of the workbook
+        state = ' state="hidden"' if logical % 2 == 0 else ""
+        sheets_xml += f'<sheet name="{escape(sh["name"], {chr(34): "&quot;"})}" sheetId="{logical}"{state} r:id="{rid}"/>'
         overrides += (f'<Override PartName="/xl/worksheets/sheet{n}.xml" ContentType="application/vnd.openxmlformats-'
                       'officedocument.spreadsheetml.worksheet+xml"/>')
         rows = ""
